@@ -127,6 +127,12 @@ fn span(t: &DataType) -> f64 {
               DataType::Float(i) => match (i.min(), i.max()) { (Some(a), Some(b)) => b - a, _ => 0.0 },
               DataType::Optional(o) => span(o.data_type()), _ => 0.0 }
 }
+/// largest magnitude among numeric argument values (lists included)
+fn scale_of(vals: &[Value]) -> f64 {
+    fn one(v: &Value) -> f64 { match v { Value::Integer(i) => (**i as f64).abs(), Value::Float(f) => if f.is_finite() { f.abs() } else { 0.0 }, Value::Optional(o) => o.as_deref().map(one).unwrap_or(0.0), Value::List(l) => l.iter().map(one).fold(0.0, f64::max), _ => 0.0 } }
+    vals.iter().map(one).fold(0.0, f64::max)
+}
+
 fn arg_class(tys: &[DataType], vals: &[Value]) -> String {
     let mut parts = vec![];
     for t in tys { parts.push(vname(t)); }
@@ -153,7 +159,7 @@ pub fn eval(case: &J) -> Outcome {
             let y = guarded(|| f.value(&vals));
             let img = guarded(|| f.super_image(&tys));
             judge(&mut out, &format!("fn/{name}"), &format!("{name}({})", vals.iter().map(|v| v.to_string()).collect::<Vec<_>>().join(", ")),
-                  &format!("({})", tys.iter().map(|t| t.to_string()).collect::<Vec<_>>().join(", ")), y, img, &arg_class(&tys, &vals));
+                  &format!("({})", tys.iter().map(|t| t.to_string()).collect::<Vec<_>>().join(", ")), y, img, &arg_class(&tys, &vals), scale_of(&vals));
         }
         "agg" => {
             let name = case["f"].as_str().unwrap();
@@ -165,7 +171,7 @@ pub fn eval(case: &J) -> Outcome {
             let y = guarded(|| a.value(&v));
             let img = guarded(|| a.super_image(&ty));
             let n = if let Value::List(l) = &v { l.len() } else { 0 };
-            judge(&mut out, &format!("agg/{name}"), &format!("{name}{v}"), &ty.to_string(), y, img, &format!("{}/n={}", vname(&ty_of(&case["ty"][1])), n.min(3)));
+            judge(&mut out, &format!("agg/{name}"), &format!("{name}{v}"), &ty.to_string(), y, img, &format!("{}/n={}", vname(&ty_of(&case["ty"][1])), n.min(3)), scale_of(std::slice::from_ref(&v)));
         }
         _ => {
             let cols: Vec<DataType> = case["cols"].as_array().unwrap().iter().map(ty_of).collect();
@@ -191,7 +197,7 @@ pub fn eval(case: &J) -> Outcome {
                     if let Ok(Ok(v)) = guarded(|| a.value(&row_v)) { avals.push(v); }
                     if let Ok(Ok(t)) = guarded(|| a.super_image(&row_t)) { atys.push(t); }
                 } }
-                judge(&mut out, &format!("fn/{fname}"), &format!("{node} at {row_v}"), &row_t.to_string(), y, img, &arg_class(&atys, &avals));
+                judge(&mut out, &format!("fn/{fname}"), &format!("{node} at {row_v}"), &row_t.to_string(), y, img, &arg_class(&atys, &avals), scale_of(&avals));
                 if out.oracle.len() > before { break; }
             }
         }
@@ -210,7 +216,7 @@ fn result_class(y: &Value) -> &'static str {
 
 /// membership, with a relative tolerance of 1e-9 on float results (IEEE rounding is outside the model: the image of a
 /// finite value set is computed by the same closure as the value, possibly after a period shift or a reordering of operations)
-fn mem_tol(t: &DataType, y: &Value) -> bool {
+fn mem_tol(t: &DataType, y: &Value, arg_scale: f64) -> bool {
     if mem(t, y) { return true; }
     let yv = match y { Value::Optional(o) => match o.as_ref() { Some(v) => (**v).clone(), None => return false }, v => v.clone() };
     if let Value::Float(f) = &yv {
@@ -218,7 +224,8 @@ fn mem_tol(t: &DataType, y: &Value) -> bool {
         if !f.is_finite() { return false; }
         let tt = match t { DataType::Optional(o) => o.data_type().clone(), t => t.clone() };
         if let DataType::Float(iv) = &tt {
-            let eps = 1e-9 * f.abs().max(1e-300) + 1e-12;
+            // plus a few ulps of the largest argument: range reduction of sin / cos and cancellation in sums lose that much
+            let eps = 1e-9 * f.abs().max(1e-300) + 1e-12 + 16.0 * f64::EPSILON * arg_scale;
             return iv.iter().any(|[a, b]| f >= a - eps && f <= b + eps);
         }
     }
@@ -226,7 +233,7 @@ fn mem_tol(t: &DataType, y: &Value) -> bool {
 }
 
 fn judge<E1: std::fmt::Display, E2: std::fmt::Display>(out: &mut Outcome, site: &str, what: &str, set: &str,
-        y: Result<Result<Value, E1>, (String, String)>, img: Result<Result<DataType, E2>, (String, String)>, cls: &str) {
+        y: Result<Result<Value, E1>, (String, String)>, img: Result<Result<DataType, E2>, (String, String)>, cls: &str, arg_scale: f64) {
     if let Err((loc, msg)) = &img { out.fail(&format!("C18/{site}/super_image-panic/{}", crate::common::site(loc, msg)), format!("super_image of {what} on {set} panicked at {loc}: {msg}")); }
     match y {
         Err((loc, msg)) => { out.tag("value-panic"); out.fail(&format!("C18/{site}/value-panic/{}", crate::common::site(&loc, &msg)), format!("{what} panicked at {loc}: {msg}")); }
@@ -234,7 +241,7 @@ fn judge<E1: std::fmt::Display, E2: std::fmt::Display>(out: &mut Outcome, site: 
         Ok(Ok(y)) => {
             out.tag("value-ok");
             match img {
-                Ok(Ok(t)) => { if !mem_tol(&t, &y) { let cls = format!("{}{}{}", result_class(&y), if cls.contains("/huge") || crate::s_dtype::vclass(&y) == "huge" { "/huge" } else { "" }, if cls.ends_with("/wide") { "/wide" } else { "" }); out.fail(&format!("C06/{site}/unsound-image/{cls}"), format!("{what} = {y} but the propagated range of the arguments' type {set} is {t}, which does not contain it")); } }
+                Ok(Ok(t)) => { if !mem_tol(&t, &y, arg_scale) { let cls = format!("{}{}{}", result_class(&y), if cls.contains("/huge") || crate::s_dtype::vclass(&y) == "huge" { "/huge" } else { "" }, if cls.ends_with("/wide") { "/wide" } else { "" }); out.fail(&format!("C06/{site}/unsound-image/{cls}"), format!("{what} = {y} but the propagated range of the arguments' type {set} is {t}, which does not contain it")); } }
                 Ok(Err(e)) => out.fail(&format!("C06/{site}/image-fails/{}", result_class(&y)), format!("{what} = {y} but range propagation on {set} fails: {e}")),
                 Err(_) => {}
             }
